@@ -99,7 +99,21 @@ def r1(R, M):
 def dgt(I, M, F, svd):
     """a DeformationGradientTensor-like object with chosen F and SVD"""
     cls = M["finite_strain"].cls("DeformationGradientTensor")
-    o = vn_py.SymObject((M["finite_strain"], cls), F=F, _svd=svd, _vrs=None)
+    attrs = {}
+    # attributes that __init__ sets to an empty container / None / a literal (caches, memo tables) exist on the stand-in too
+    for n_ in cls.body:
+        if isinstance(n_, ast.FunctionDef) and n_.name == "__init__":
+            for a_ in ast.walk(n_):
+                if isinstance(a_, ast.Assign) and len(a_.targets) == 1 and isinstance(a_.targets[0], ast.Attribute) and src(a_.targets[0].value) == "self":
+                    v_ = a_.value
+                    if isinstance(v_, ast.Dict) and not v_.keys:
+                        attrs[a_.targets[0].attr] = {}
+                    elif isinstance(v_, ast.List) and not v_.elts:
+                        attrs[a_.targets[0].attr] = []
+                    elif isinstance(v_, ast.Constant):
+                        attrs[a_.targets[0].attr] = v_.value
+    attrs.update(dict(F=F, _svd=svd, _vrs=None))
+    o = vn_py.SymObject((M["finite_strain"], cls), **attrs)
     return o
 
 
@@ -129,6 +143,23 @@ def r2(R, M):
         rf = I.call_fn(fm, ref_fn, [o3, m], {})
         ok, why = vn_py.same(rf, rf.T)
         R.check(ok, "C10.R2", FS, ref_fn.lineno, "DeformationGradientTensor.finite_strain_ref", "m=%s: result symmetric" % m, why)
+    # the result does not depend on what the same object was asked before (memo tables, cached decompositions): ref then lab on one
+    # object equals lab then ref on another, for every m
+    for m in MS:
+        oa = dgt(I, M, F, (w, s, vh))
+        a_ref = I.call_fn(fm, ref_fn, [oa, m], {})
+        a_lab = I.call_fn(fm, lab_fn, [oa, m], {})
+        a_ref2 = I.call_fn(fm, ref_fn, [oa, m], {})
+        ob = dgt(I, M, F, (w, s, vh))
+        b_lab = I.call_fn(fm, lab_fn, [ob, m], {})
+        b_ref = I.call_fn(fm, ref_fn, [ob, m], {})
+        b_lab2 = I.call_fn(fm, lab_fn, [ob, m], {})
+        for x_, y_, what in ((a_ref, b_ref, "ref first vs ref after lab"), (a_lab, b_lab, "lab after ref vs lab first"),
+                             (a_ref2, a_ref, "ref repeated"), (b_lab2, b_lab, "lab repeated")):
+            ok, why = vn_py.same(x_, y_)
+            R.check(ok, "C10.R2", FS, lab_fn.lineno, "DeformationGradientTensor", "m=%s: %s" % (m, what),
+                    "the tensor an object returns depends on which tensors it was asked for before (a cache is filled or read under the "
+                    "wrong key): " + why[:200])
     # the even-m path is exactly (C^m - I)/2m with C = F^T F (no SVD): value check for m = 1
     o = dgt(I, M, F, None)
     e1 = I.call_fn(fm, ref_fn, [o, 1], {})
